@@ -104,14 +104,21 @@ def h_clear(who, state, shape):
     mid = eng.sym_int('mid', 0, 0xFFFFFFFF)
     d = world.restamp(d0, None, exchange=exch, flags=flags, mid=mid)
     world.ENV.now = world.ENV.now + 7          # the liveness timer would move if it were re-armed
+    if me.state not in (S.INIT_RES_SENT, S.AUTH_REQ_SENT):
+        # arbitrary counters: any history length (the stored response is then some encrypted response)
+        me.my_msg_id = eng.sym_int('my_msg_id', 0, 0xFFFFFFF0)
+        me.peer_msg_id = eng.sym_int('peer_msg_id', 0, 0xFFFFFFF0)
+        if not hasattr(me, 'last_sent_response_data'):
+            me.last_sent_response_data = b'<stored encrypted response>'
     s0 = world.snapshot(me, E.kernel)
     dpd0 = me.start_dpd_at
     peer0 = me.peer_msg_id
+    state0 = me.state
     cached = getattr(me, 'last_sent_response_data', None)
     ret, exc = deliver(me, E, d)
     # the only reply ever allowed: the stored IKE_SA_INIT response for a retransmitted IKE_SA_INIT request
     retrans = core.sym_and(exch == 34, (flags & 0x20) == 0, mid == 0, peer0 == 1, ((flags & 0x08) != 0) != me.is_initiator)
-    return judge(eng, me, E, s0, dpd0, ret, exc, allow_cached=(retrans, cached) if cached is not None else None)
+    return judge(eng, me, E, s0, dpd0, ret, exc, allow_cached=(retrans, cached) if (cached is not None and state0 == S.INIT_RES_SENT) else None)
 
 
 def forged_base(p, who, kind, eng, sym_header=True):
@@ -256,6 +263,51 @@ def h_trunc(who, state, kind, cut):
     return judge(eng, me, E, s0, dpd0, ret, exc)
 
 
+def h_ctl(layout_kind, how):
+    """controller level: a forged datagram carrying the SPIs of a listed IKE_SA must leave the table and the IKE_SA alone"""
+    from symx import core
+    eng = core.engine()
+    S = MODS['ikesa'].IkeSa.State
+    c = world.Ctl()
+    ep = c.new_initiator()
+    c.handshake(ep, upto=2 if layout_kind == 'half_open' else 4)
+    e = ep.entry
+    a = ep.obj
+    exch = eng.sym_int('exch', 0, 255)
+    flags = eng.sym_int('flags', 0, 255)
+    mid = eng.sym_int('mid', 0, 0xFFFFFFFF)
+    # IKE_SA_INIT requests create a new IKE_SA by design (C16); everything else is routed by SPI
+    eng.assume(core.sym_not(core.sym_and(exch == 34, (flags & 0x20) == 0)))
+    if how == 'cleartext':
+        d0 = clear_datagram(None, e, 'delete_ike')
+        d = world.restamp(d0, None, exchange=exch, flags=flags, mid=mid)
+    else:
+        # what the initiator would really send next, with an arbitrary checksum that is not the MAC
+        if layout_kind == 'half_open':
+            d0 = bytes(ep.call(a.process_message, ep.last_received))
+        else:
+            world.ENV.now = a.start_dpd_at + 3600
+            d0 = bytes(ep.call(a.check_dead_peer_detection_timer))
+        d = core.SymBytes.lift(world.restamp(d0, None, exchange=exch, flags=flags, mid=mid))
+        integ = e.peer_crypto.integrity
+        n = integ.hash_size
+        icv = eng.sym_bytes('icv', n)
+        eng.assume(core.SymBytes.lift(icv) != integ.compute(e.peer_crypto.sk_a, d[:-n]))
+        d = core.SymBytes(d.items[:-n] + core.SymBytes.lift(icv).items, True)
+    world.ENV.now = world.ENV.now + 7
+    table0 = list(c.ctl.ike_sas)
+    s0 = world.snapshot(e, c.E.kernel)
+    dpd0 = e.start_dpd_at
+    ret, exc = None, None
+    try:
+        ret = c.dispatch(d)
+    except Exception as ex:      # noqa
+        exc = ex
+    if len(c.ctl.ike_sas) != len(table0) or any(x is not y for x, y in zip(table0, c.ctl.ike_sas)):
+        return {'class': ['ctl'], 'violation': 'a forged/unprotected datagram changed the IKE_SA table'}
+    return judge(eng, e, c.E, s0, dpd0, ret, exc)
+
+
 KEYED_A = tuple(s for s in world.ALL_STATES_A if s != 'INIT_REQ_SENT')
 KEYED_B = world.ALL_STATES_B
 SHAPES = ('empty', 'delete_ike', 'delete_esp', 'notify_auth_failed', 'notify_cookie', 'sa_nonce_ke', 'child_sa', 'init_req')
@@ -288,6 +340,9 @@ def build_instances(tier):
             for cut in cuts:
                 inst.append(Instance(f'truncated {who} {st} <- {kind} cut={cut}', h_trunc, (who, st, kind, cut), native=nat(h_trunc)))
         inst.append(Instance(f'reflected {who} {st}', h_forged, (who, st, 'reflect', 'reflect'), native=nat(h_forged)))
+    for lk in ('half_open', 'established'):
+        for how in ('cleartext', 'icv'):
+            inst.append(Instance(f'controller {lk} {how}', h_ctl, (lk, how), native=nat(h_ctl), must_reach=reached))
     return inst
 
 
